@@ -245,3 +245,393 @@ Proof.
   unfold proj. right.
   set (e0 := nth j (Epts P) zeroRR). set (e1 := nth (S j) (Epts P) zeroRR). ring.
 Qed.
+
+(* ---------- end points of the curve ---------- *)
+
+Lemma lstep_one m : lstep 1 m = tl m.
+Proof.
+  induction m as [|a|a b r IH] using list_ind2; try reflexivity.
+  rewrite lstep_cons2, IH. cbn [tl]. f_equal. ring.
+Qed.
+
+Lemma dc_one n : forall m, length m = S n -> dc n 1 m = last m 0.
+Proof.
+  induction n as [|n IH]; intros m Hm.
+  - destruct m as [|a [|b r]]; try discriminate. reflexivity.
+  - cbn [dc]. rewrite lstep_one. destruct m as [|a [|b r]]; try discriminate.
+    cbn [tl]. rewrite IH by (cbn [length] in *; lia). reflexivity.
+Qed.
+
+Lemma Bez_0 P n : length P = S n -> Bez P 0 = hd zeroRR P.
+Proof.
+  intros H. unfold Bez. rewrite H. cbn [pred].
+  rewrite !dc_zero by (rewrite map_length; exact H).
+  destruct P as [|[x y] P]; [discriminate|]. reflexivity.
+Qed.
+
+Lemma Bez_1 P n : length P = S n -> Bez P 1 = last P zeroRR.
+Proof.
+  intros H. unfold Bez. rewrite H. cbn [pred].
+  rewrite !dc_one by (rewrite map_length; exact H).
+  rewrite <- (map_last' zeroRR 0 fst eq_refl), <- (map_last' zeroRR 0 snd eq_refl).
+  destruct (last P zeroRR); reflexivity.
+Qed.
+
+(* the two halves of a piece (T17b, both coordinates) *)
+Lemma sub_R_Bez c n : length c = S n ->
+  length (fst (sub_R c)) = S n /\ length (snd (sub_R c)) = S n /\
+  forall t, Bez (fst (sub_R c)) t = Bez c (t / 2) /\ Bez (snd (sub_R c)) t = Bez c ((1 + t) / 2).
+Proof.
+  intros Hc. destruct (sub_R_fst c) as [F1 F2]. destruct (sub_R_snd c) as [S1 S2].
+  assert (L1 : length (fst (sub_R c)) = S n).
+  { pose proof (f_equal (@length R) F1) as E. rewrite map_length, left_length in E. exact (eq_trans E Hc). }
+  assert (L2 : length (snd (sub_R c)) = S n).
+  { pose proof (f_equal (@length R) F2) as E. rewrite map_length, right_length in E. exact (eq_trans E Hc). }
+  split; [exact L1|]. split; [exact L2|]. intros t. unfold Bez.
+  rewrite L1, L2, Hc, F1, F2, S1, S2, Hc. cbn [pred].
+  rewrite !left_polygon, !right_polygon by (rewrite map_length; exact Hc). split; reflexivity.
+Qed.
+
+(* ---------- polylines that follow a curve ---------- *)
+
+Section Follow.
+  Variable B : R -> RP.
+  Variable K : R.
+
+  (* one edge: parameters in order, and polyline and curve within K at
+     corresponding points *)
+  Definition edge_ok (x y : R * RP) : Prop :=
+    fst x <= fst y /\
+    forall s, 0 <= s <= 1 -> dist2 (B ((1 - s) * fst x + s * fst y)) (lerp2 (snd x) (snd y) s) <= K.
+
+  Fixpoint follows (l : list (R * RP)) : Prop :=
+    match l with
+    | [] => True
+    | x :: r => match r with [] => True | y :: _ => edge_ok x y /\ follows r end
+    end.
+
+  Lemma follows_cons2 x y r : follows (x :: y :: r) <-> edge_ok x y /\ follows (y :: r).
+  Proof. reflexivity. Qed.
+
+  Lemma follows_app l1 x l2 : follows (l1 ++ [x]) -> follows (x :: l2) -> follows (l1 ++ x :: l2).
+  Proof.
+    induction l1 as [|a l1 IH]; intros H1 H2; [exact H2|].
+    destruct l1 as [|b l1].
+    - cbn [app] in *. destruct H1 as [He _]. split; assumption.
+    - change (((a :: b :: l1) ++ [x])) with (a :: b :: (l1 ++ [x])) in H1.
+      change ((a :: b :: l1) ++ x :: l2) with (a :: b :: (l1 ++ x :: l2)).
+      destruct H1 as [He H1]. split; [exact He|]. apply IH; assumption.
+  Qed.
+
+  Lemma follows_nth d l :
+    (forall j, (S j < length l)%nat -> edge_ok (nth j l d) (nth (S j) l d)) -> follows l.
+  Proof.
+    induction l as [|x l IH]; intros H; [exact I|].
+    destruct l as [|y r]; [exact I|]. split.
+    - exact (H 0%nat ltac:(cbn [length]; lia)).
+    - apply IH. intros j Hj. exact (H (S j) ltac:(cbn [length] in *; lia)).
+  Qed.
+
+  Lemma follows_edge d : forall l j, follows l -> (S j < length l)%nat -> edge_ok (nth j l d) (nth (S j) l d).
+  Proof.
+    induction l as [|x l IH]; intros j H Hj; [cbn [length] in Hj; lia|].
+    destruct l as [|y r]; [cbn [length] in Hj; lia|]. destruct H as [He H].
+    destruct j as [|j]; [exact He|]. apply (IH j H). cbn [length] in *. lia.
+  Qed.
+
+  (* parameters are monotone along the polyline *)
+  Lemma follows_mono d : forall l i j, follows l -> (i <= j)%nat -> (j < length l)%nat ->
+    fst (nth i l d) <= fst (nth j l d).
+  Proof.
+    intros l i j H Hij Hj. induction j as [|j IH].
+    - assert (i = 0)%nat by lia. subst. lra.
+    - destruct (Nat.eq_dec i (S j)) as [->|Hne]; [lra|].
+      apply Rle_trans with (fst (nth j l d)); [apply IH; lia|].
+      exact (proj1 (follows_edge d l j H Hj)).
+  Qed.
+
+  (* every parameter between the first and the last lies on some edge *)
+  Lemma follows_cover d : forall l, follows l -> (1 <= length l)%nat -> forall t,
+    fst (nth 0 l d) <= t <= fst (nth (pred (length l)) l d) ->
+    (length l = 1%nat /\ t = fst (nth 0 l d)) \/
+    exists j s, (S j < length l)%nat /\ 0 <= s <= 1 /\
+      t = (1 - s) * fst (nth j l d) + s * fst (nth (S j) l d).
+  Proof.
+    induction l as [|x l IH]; intros H Hl t Ht; [cbn [length] in Hl; lia|].
+    destruct l as [|y r].
+    - left. cbn [length pred nth] in *. split; [reflexivity|lra].
+    - right. destruct H as [He H]. cbn [nth] in Ht.
+      destruct (Rle_dec t (fst y)) as [Hle|Hgt].
+      + exists 0%nat. cbn [nth length].
+        destruct (Req_dec (fst x) (fst y)) as [E|E].
+        * exists 0. split; [lia|]. split; [lra|]. lra.
+        * exists ((t - fst x) / (fst y - fst x)).
+          assert (Hpos : 0 < fst y - fst x) by (destruct He; lra).
+          split; [lia|]. split.
+          -- split.
+             ++ apply Rmult_le_pos; [lra|]. apply Rlt_le, Rinv_0_lt_compat. exact Hpos.
+             ++ apply Rmult_le_reg_r with (fst y - fst x); [exact Hpos|].
+                unfold Rdiv. rewrite Rmult_assoc, Rinv_l by lra. lra.
+          -- field. lra.
+      + specialize (IH H ltac:(cbn [length]; lia) t).
+        destruct IH as [[Hl1 Et]|(j & s & Hj & Hs & Et)].
+        * cbn [length pred nth] in *. lra.
+        * cbn [length] in Hl1. cbn [nth] in Et. lra.
+        * exists (S j), s. cbn [length] in *. split; [lia|]. split; [exact Hs|]. exact Et.
+  Qed.
+End Follow.
+
+(* ---------- list helpers ---------- *)
+
+Lemma nth_map_seq {X} (f : nat -> X) k j d : (j < k)%nat -> nth j (map f (seq 0 k)) d = f j.
+Proof.
+  intros Hj. rewrite (nth_indep _ d (f 0%nat)) by (rewrite map_length, seq_length; exact Hj).
+  rewrite map_nth, seq_nth by exact Hj. reflexivity.
+Qed.
+
+Lemma combine_app {X Y} (a a' : list X) (b b' : list Y) :
+  length a = length b -> combine (a ++ a') (b ++ b') = combine a b ++ combine a' b'.
+Proof.
+  revert b. induction a as [|x a IH]; intros [|y b] H; try discriminate; [reflexivity|].
+  cbn [app combine]. f_equal. apply IH. cbn [length] in H. lia.
+Qed.
+
+Lemma approx_pts_hd {T} (avg : T -> T -> T) tri (d : T) m :
+  exists r, approx_pts_g avg tri d m = hd d m :: r.
+Proof. unfold approx_pts_g. destruct (subdiv_g avg d (length m) m). eexists. reflexivity. Qed.
+
+Lemma bstep_g_cons {P} (flat : list P -> bool) sub emit (c : list P) rest path :
+  c <> [] ->
+  bstep_g flat sub emit (c :: rest, path) =
+  if flat c then inl (rest, path ++ emit c) else let '(l, r) := sub c in inl (l :: r :: rest, path).
+Proof. intros H. unfold bstep_g. cbn [fst snd]. destruct c; [congruence|reflexivity]. Qed.
+
+(* ---------- the loop ---------- *)
+
+Section Loop.
+  Variable points : list RP.
+  Variable n' : nat.
+  Hypothesis Hpts : length points = S (S n').
+  Let n := S n'.
+  Let K := Kbez n.
+  Let B := Bez points.
+  Variable path0 : list RP.
+
+  (* c is the control polygon of the curve on [a, b] *)
+  Definition repr (c : list RP) (a b : R) : Prop :=
+    length c = S n /\ a <= b /\ forall t, Bez c t = B (a + t * (b - a)).
+
+  (* the stack covers [a, 1] *)
+  Fixpoint covers (stack : list (list RP)) (a : R) : Prop :=
+    match stack with
+    | [] => a = 1
+    | c :: rest => exists b, repr c a b /\ covers rest b
+    end.
+
+  (* the path so far (after path0), with the parameters of its vertices and the
+     pending vertex B a that the next piece or the final push will emit *)
+  Definition inv (st : list (list RP) * list RP) : Prop :=
+    exists new taus a,
+      snd st = path0 ++ new /\ length taus = length new /\ covers (fst st) a /\
+      follows B K (combine taus new ++ [(a, B a)]) /\ hd a taus = 0.
+
+  Definition post (o : outcome (list RP)) : Prop :=
+    match o with
+    | Done p => exists new taus, p = path0 ++ new /\ length taus = length new /\
+                  follows B K (combine taus new ++ [(1, B 1)]) /\ hd 1 taus = 0
+    | _ => True
+    end.
+
+  Definition tau (a b : R) (j : nat) : R := a + INR j / INR n * (b - a).
+
+  Lemma INRn_pos : 1 <= INR n.
+  Proof. unfold n. rewrite S_INR. pose proof (pos_INR n'). lra. Qed.
+
+  Lemma Epts_length c : length c = S n -> length (Epts c) = S n.
+  Proof.
+    intros Hc. unfold Epts, emit_R. rewrite app_length, (approx_pts_length _ _ _ c n' Hc). cbn [length]. unfold n. lia.
+  Qed.
+
+  (* a flat piece: its polyline, with equally spaced parameters, follows the curve *)
+  Lemma piece_follows c a b : repr c a b -> flat_R c = true ->
+    follows B K (combine (map (tau a b) (seq 0 (S n))) (Epts c)).
+  Proof.
+    intros (Hc & Hab & HB) Hf. pose proof INRn_pos as HN. pose proof (Epts_length c Hc) as LE.
+    apply (follows_nth B K (0, zeroRR)). intros j Hj.
+    rewrite combine_length, map_length, seq_length, LE, Nat.min_id in Hj.
+    rewrite !(combine_nth _ _ _ 0 zeroRR) by (rewrite map_length, seq_length, LE; reflexivity).
+    rewrite !nth_map_seq by lia.
+    unfold edge_ok. cbn [fst snd]. split.
+    - unfold tau. rewrite S_INR.
+      assert (0 <= / INR n * (b - a)) by (apply Rmult_le_pos; [apply Rlt_le, Rinv_0_lt_compat; lra|lra]).
+      unfold Rdiv. nra.
+    - intros s Hs.
+      replace ((1 - s) * tau a b j + s * tau a b (S j)) with (a + (INR j + s) / INR n * (b - a))
+        by (unfold tau; rewrite S_INR; field; lra).
+      rewrite <- HB. unfold K, n. apply piece_close_2D; [exact Hc|exact Hf|lia|exact Hs].
+  Qed.
+
+  Lemma step_inv st : inv st ->
+    match bstep_g flat_R sub_R emit_R st with inl st' => inv st' | inr r => post r end.
+  Proof.
+    destruct st as [stack path]. intros (new & taus & a & Hp & Hl & Hcov & Hfol & Hhd).
+    cbn [fst snd] in *. pose proof INRn_pos as HN.
+    destruct stack as [|c rest].
+    - cbn [covers] in Hcov. subst a. unfold bstep_g. cbn [fst snd post].
+      exists new, taus. repeat split; assumption.
+    - destruct Hcov as (b & Hrep & Hrest). pose proof Hrep as (Hc & Hab & HB).
+      assert (Hne : c <> []) by (intros ->; discriminate).
+      rewrite (bstep_g_cons _ _ _ c rest path Hne).
+      destruct (flat_R c) eqn:Ef.
+      + (* a flat piece is emitted *)
+        pose proof (piece_follows c a b Hrep Ef) as HPL.
+        pose proof (Epts_length c Hc) as LE.
+        assert (Lem : length (emit_R c) = n) by (unfold emit_R; rewrite (approx_pts_length _ _ _ c n' Hc); reflexivity).
+        exists (new ++ emit_R c), (taus ++ map (tau a b) (seq 0 n)), b. cbn [fst snd].
+        assert (Etau_n : tau a b n = b) by (unfold tau; field; lra).
+        assert (Etau_0 : tau a b 0 = a) by (unfold tau; cbn [INR]; field; lra).
+        assert (EBb : last c zeroRR = B b).
+        { rewrite <- (Bez_1 c n Hc), HB. f_equal. ring. }
+        assert (EBa : hd zeroRR c = B a).
+        { rewrite <- (Bez_0 c n Hc), HB. f_equal. ring. }
+        (* the piece's polyline, split at its last vertex and at its first *)
+        assert (EPL : combine (map (tau a b) (seq 0 (S n))) (Epts c) =
+                      combine (map (tau a b) (seq 0 n)) (emit_R c) ++ [(b, B b)]).
+        { rewrite seq_S, map_app. cbn [map Nat.add]. unfold Epts.
+          rewrite combine_app by (rewrite map_length, seq_length, Lem; reflexivity).
+          cbn [combine]. rewrite Etau_n, EBb. reflexivity. }
+        assert (EPL0 : exists tlPL, combine (map (tau a b) (seq 0 (S n))) (Epts c) = (a, B a) :: tlPL).
+        { unfold Epts, emit_R. destruct (approx_pts_hd avgRR triRR zeroRR c) as (r & ->).
+          cbn [seq map app combine]. rewrite Etau_0, EBa. eexists. reflexivity. }
+        split; [rewrite Hp, app_assoc; reflexivity|].
+        split; [rewrite !app_length, map_length, seq_length, Lem, Hl; reflexivity|].
+        split; [exact Hrest|]. split.
+        * rewrite (combine_app taus _ new _ Hl), <- app_assoc, <- EPL.
+          destruct EPL0 as (tlPL & EP). rewrite EP in HPL |- *.
+          apply follows_app; assumption.
+        * destruct taus as [|t0 taus]; [|exact Hhd].
+          cbn [hd] in Hhd. subst a. cbn [app]. unfold n at 1. cbn [seq map hd]. exact Etau_0.
+      + (* subdivision *)
+        destruct (sub_R c) as [l r] eqn:Es.
+        destruct (sub_R_Bez c n Hc) as (L1 & L2 & HT). rewrite Es in L1, L2, HT. cbn [fst snd] in L1, L2, HT.
+        exists new, taus, a. cbn [fst snd]. split; [exact Hp|]. split; [exact Hl|]. split; [|split; assumption].
+        exists ((a + b) / 2). split.
+        * split; [exact L1|]. split; [lra|]. intros t. rewrite (proj1 (HT t)), HB. f_equal. field.
+        * exists b. split; [|exact Hrest].
+          split; [exact L2|]. split; [lra|]. intros t. rewrite (proj2 (HT t)), HB. f_equal. field.
+  Qed.
+
+  Lemma inv_init : inv ([points], path0).
+  Proof.
+    exists [], [], 0. cbn [fst snd]. split; [rewrite app_nil_r; reflexivity|]. split; [reflexivity|].
+    split; [|split; [exact I|reflexivity]].
+    exists 1. split; [|reflexivity]. split; [exact Hpts|]. split; [lra|].
+    intros t. unfold B. f_equal. ring.
+  Qed.
+
+  (* the emitted path carries parameters from 0 to 1 along which it follows the curve *)
+  Theorem bezier_param_close fuel path' :
+    approximate_bezier_R fuel path0 points = Done path' ->
+    exists new taus, path' = path0 ++ new /\ length taus = length new /\
+      hd 1 taus = 0 /\ last taus 0 = 1 /\ follows B K (combine taus new).
+  Proof.
+    unfold approximate_bezier_R, approximate_bezier_g. intros H.
+    pose proof (iter_fuel_inv (bstep_g flat_R sub_R emit_R) inv post I step_inv fuel _ inv_init) as HP.
+    destruct (iter_fuel (bstep_g flat_R sub_R emit_R) fuel ([points], path0)) as [p| |]; cbn [obind] in H; try discriminate.
+    destruct HP as (new & taus & Hp & Hl & Hfol & Hhd).
+    assert (EB1 : last points zeroRR = B 1) by (symmetry; exact (Bez_1 points n Hpts)).
+    assert (H' : Done (p ++ [last points zeroRR]) = Done path').
+    { destruct points; [discriminate Hpts|exact H]. }
+    clear H. injection H' as <-.
+    exists (new ++ [B 1]), (taus ++ [1]). split; [rewrite Hp, EB1, app_assoc; reflexivity|].
+    split; [rewrite !app_length, Hl; reflexivity|].
+    split; [destruct taus; [cbn [hd] in Hhd; lra|exact Hhd]|].
+    split; [apply last_last|].
+    rewrite (combine_app taus _ new _ Hl). exact Hfol.
+  Qed.
+End Loop.
+
+(* ---------- the two-sided Hausdorff bound ---------- *)
+
+Lemma last_as_nth {X} (d : X) : forall l, last l d = nth (pred (length l)) l d.
+Proof.
+  induction l as [|a l IH]; [reflexivity|]. destruct l as [|b r]; [reflexivity|].
+  change (last (a :: b :: r) d) with (last (b :: r) d). rewrite IH. reflexivity.
+Qed.
+
+Theorem bezier_hausdorff points n' path0 fuel path' :
+  length points = S (S n') ->
+  approximate_bezier_R fuel path0 points = Done path' ->
+  let K := Kbez (S n') in
+  let B := Bez points in
+  exists new, path' = path0 ++ new /\ (2 <= length new)%nat /\
+    (* every vertex is within K of the curve *)
+    (forall k, (k < length new)%nat ->
+       exists t, 0 <= t <= 1 /\ dist2 (B t) (nth k new zeroRR) <= K) /\
+    (* every point of the polyline is within K of the curve *)
+    (forall k s, (S k < length new)%nat -> 0 <= s <= 1 ->
+       exists t, 0 <= t <= 1 /\ dist2 (B t) (lerp2 (nth k new zeroRR) (nth (S k) new zeroRR) s) <= K) /\
+    (* every point of the curve is within K of the polyline *)
+    (forall t, 0 <= t <= 1 ->
+       exists k s, (S k < length new)%nat /\ 0 <= s <= 1 /\
+         dist2 (B t) (lerp2 (nth k new zeroRR) (nth (S k) new zeroRR) s) <= K).
+Proof.
+  intros Hpts Hrun K B.
+  destruct (bezier_param_close points n' Hpts path0 fuel path' Hrun) as (new & taus & Hp & Hl & Hhd & Hlast & Hfol).
+  fold K in Hfol. fold B in Hfol.
+  set (l := combine taus new) in *.
+  assert (Ll : length l = length new) by (unfold l; rewrite combine_length, Hl, Nat.min_id; reflexivity).
+  assert (Hnth : forall k, nth k l (0, zeroRR) = (nth k taus 0, nth k new zeroRR)).
+  { intros k. unfold l. apply combine_nth. exact Hl. }
+  assert (Hlen2 : (2 <= length new)%nat).
+  { rewrite <- Hl. destruct taus as [|t0 [|t1 r]]; cbn [hd last length] in *; try lra. lia. }
+  assert (H0 : fst (nth 0 l (0, zeroRR)) = 0).
+  { rewrite Hnth. cbn [fst]. destruct taus; [cbn [length] in Hl; lia|exact Hhd]. }
+  assert (H1 : fst (nth (pred (length l)) l (0, zeroRR)) = 1).
+  { rewrite Hnth. cbn [fst]. rewrite Ll, <- Hl, <- last_as_nth. exact Hlast. }
+  assert (Hrange : forall k, (k < length l)%nat -> 0 <= fst (nth k l (0, zeroRR)) <= 1).
+  { intros k Hk. split.
+    - apply Rle_trans with (fst (nth 0 l (0, zeroRR))); [rewrite H0; lra|].
+      apply (follows_mono B K); [exact Hfol|lia|exact Hk].
+    - apply Rle_trans with (fst (nth (pred (length l)) l (0, zeroRR))); [|rewrite H1; lra].
+      apply (follows_mono B K); [exact Hfol|lia|lia]. }
+  assert (Hedge : forall k s, (S k < length new)%nat -> 0 <= s <= 1 ->
+            exists t, 0 <= t <= 1 /\ dist2 (B t) (lerp2 (nth k new zeroRR) (nth (S k) new zeroRR) s) <= K).
+  { intros k s Hk Hs.
+    pose proof (follows_edge B K (0, zeroRR) l k Hfol ltac:(lia)) as [Hle He].
+    specialize (He s Hs). rewrite !Hnth in He. cbn [fst snd] in He.
+    pose proof (Hrange k ltac:(lia)) as R0. pose proof (Hrange (S k) ltac:(lia)) as R1.
+    rewrite !Hnth in R0, R1, Hle. cbn [fst] in R0, R1, Hle.
+    eexists. split; [|exact He]. split; nra. }
+  exists new. split; [exact Hp|]. split; [exact Hlen2|]. split; [|split; [exact Hedge|]].
+  - intros k Hk. destruct (Nat.eq_dec (S k) (length new)) as [E|E].
+    + (* the last vertex: the end of the previous edge *)
+      destruct k as [|k]; [lia|].
+      destruct (Hedge k 1 ltac:(lia) ltac:(lra)) as (t & Ht & Hd). rewrite lerp2_1 in Hd. eauto.
+    + destruct (Hedge k 0 ltac:(lia) ltac:(lra)) as (t & Ht & Hd). rewrite lerp2_0 in Hd. eauto.
+  - intros t Ht.
+    destruct (follows_cover B K (0, zeroRR) l Hfol ltac:(lia) t ltac:(rewrite H0, H1; exact Ht))
+      as [[L1 _]|(j & s & Hj & Hs & Et)]; [lia|].
+    exists j, s. split; [lia|]. split; [exact Hs|].
+    pose proof (follows_edge B K (0, zeroRR) l j Hfol Hj) as [_ He].
+    specialize (He s Hs). rewrite <- Et in He. rewrite !Hnth in He. exact He.
+Qed.
+
+(* ---------- the hypothesis "the routine returns" is met ----------
+   (T01g in exact arithmetic: second differences up to 2^37 with the fuel of
+   the model) *)
+Lemma approximate_bezier_R_returns (c : list RP) M path :
+  c <> [] -> B2 M (dd (map fst c)) (dd (map snd c)) -> 0 <= M -> M <= 4 ^ 19 / 2 ->
+  exists path', approximate_bezier_R bezier_fuel path c = Done path'.
+Proof.
+  intros Hne HB H0 HM. destruct (T01g_exact_fuel c M path emit_R Hne HB H0 HM) as (p & Hp).
+  unfold approximate_bezier_R, approximate_bezier_g. rewrite Hp. cbn [obind].
+  destruct c; [congruence|]. eexists. reflexivity.
+Qed.
+
+Example bezier_hausdorff_nonvacuous :
+  exists path', approximate_bezier_R bezier_fuel [] [(0, 0); (1, 0); (0, 0)] = Done path'.
+Proof.
+  apply (approximate_bezier_R_returns _ 2); [discriminate| |lra|cbn [pow]; lra].
+  cbn [map fst snd]. rewrite !dd_cons3. constructor; [|constructor]. lra.
+Qed.
